@@ -242,6 +242,17 @@ class Engine:
             cur = out
         return True
 
+    def run_custom(self, execs_by_protocol, paths):
+        """execs_by_protocol: {P: [(vals, parts)]} - hand-made executions (e.g. stream-length patterns)."""
+        for P, execs in execs_by_protocol.items():
+            steps = self.pr.steps[P]
+            for vals, parts in execs:
+                data = refcodec.encode_protocol(steps, vals, self.pr.schemas[P], parts)
+                self.chk.nontriv(hash((P, repr(vals), repr(parts))))
+                for path in paths:
+                    self.chk.count()
+                    self.run_path(P, steps, vals, parts, path, data, isolate_on_fail=False)
+
     def run(self, paths_binary, paths_json, protocols=None, skip_dates_for=None):
         """paths_binary: paths run on full value domains (incl. NaN/inf); paths_json: on JSON-safe domains."""
         for P, steps in self.pr.steps.items():
@@ -265,3 +276,49 @@ class Engine:
                 if self.chk.evaluations % 50 < len(execs):
                     self.chk.sample({"protocol": "%s.%s" % (self.pkg.namespace, P), "steps": len(steps),
                                      "first_step": self.step_yaml(P, 0), "executions": len(execs)})
+
+
+def buffer_executions(pr, quick=True):
+    """Alignment executions for the buffer package: for every B<T> protocol the value v is placed so that its first byte
+    lies at offset 65536*m - j for every j in [0, len(enc(v))], m in {1} (quick) or {1, 2}; long-stream executions for L<T>."""
+    import values as _values
+    out = {}
+    for P, steps in pr.steps.items():
+        schema = pr.schemas[P]
+        if P.startswith("B"):
+            t = steps[1][1]
+            vs = _values.values(t, 2, json_safe=True)
+            v = max(vs, key=lambda x: len(refcodec.encode(t, x)))     # the value with the longest encoding
+            if len(refcodec.encode(t, v)) > 64:
+                v = next(x for x in vs if 2 <= len(refcodec.encode(t, x)) <= 64)
+            tail = [v, vs[0], v]
+            n = len(refcodec.encode(t, v))
+            hdr = len(refcodec.header(schema))
+            execs = []
+            for m in ((1,) if quick else (1, 2)):
+                for j in range(0, n + 2):
+                    target = BUF * m - j                  # absolute offset of the first byte of v
+                    L = target - hdr
+                    # pad = uvarint(len) + bytes
+                    for vl in (1, 2, 3, 4):
+                        if len(refcodec.uvarint(L - vl)) == vl:
+                            L -= vl
+                            break
+                    if L < 0:
+                        continue
+                    execs.append(([("x" * L), v, tail, 5], {2: [1, 2]}))
+            out[P] = execs
+        elif P.startswith("L"):
+            t = steps[0][1]
+            vs = _values.values(t, 1, json_safe=True)
+            a, b = vs[0], vs[min(2, len(vs) - 1)]
+            per = max(1, len(refcodec.encode(t, b)))
+            nitems = min(30000, (3 * BUF) // per + 7)
+            items = [b if i % 3 else a for i in range(nitems)]
+            nbig = min(30000, (BUF + 4096) // per + 3)
+            out[P] = [([b, items, [b] * nbig, 9], {1: [nitems // 2, nitems - nitems // 2]}),
+                      ([a, [], [], 9], {})]
+    return out
+
+
+BUF = 65536
